@@ -1,6 +1,7 @@
 # C58: stage list (what ./check C58 quick|thorough runs) and manifest text. Helpers gen()/enum()/hyp()/custom() come from props.py.
 SPEC = {'level': 'exploration',
- 'assumptions': ['regtest: every block has the same proof (2 work units, own cpp_int computation from nBits), so "work >= tip work" coincides with "height >= tip height"; '
+ 'assumptions': ['40% of the cases put the node in the state "minimum chain work reached, initial block download left (mock time next to the tip time), tip then invalidated back below the minimum" before the unrequested deliveries',
+                 'regtest: every block has the same proof (2 work units, own cpp_int computation from nBits), so "work >= tip work" coincides with "height >= tip height"; '
                  'the three conditions are still evaluated separately and the minimum-chain-work boundary is placed at +-1 work unit',
                  'delivered blocks are valid empty blocks whose parent header is known (header connects); the converse direction (eligible => stored) is taken from '
                  'the DESIGN entry, the statement itself is the only-if direction plus "dropped = nothing stored, not marked invalid, acceptable later"',
@@ -12,7 +13,7 @@ SPEC = {'level': 'exploration',
              'cases_thorough': 24000,
              'min_cases_quick': 400,
              'floors': {'stored-at-boundary': 0.2, 'dropped-at-boundary': 0.2, 'dropped-too-far-ahead': 0.1, 'dropped-less-work': 0.1,
-                        'dropped-below-minwork': 0.1, 'stored-equal-work': 0.08, 'redelivery-accepted': 0.3},
+                        'dropped-below-minwork': 0.1, 'stored-equal-work': 0.08, 'redelivery-accepted': 0.3, 'ibd-left-then-tip-below-minwork': 0.1, 'post-ibd-below-minwork-drop': 0.06},
              'rule': 'unrequested deliveries at work / height+288 / minimum-chain-work boundaries; non-trivial = stored and dropped deliveries within +-1 of a '
                      'boundary + an accepted requested redelivery'}]}
 
